@@ -347,6 +347,14 @@ class Interp:
                 return v.fields[p]
             if isinstance(p, str) and p.startswith("@"):
                 return v
+            # a field of the type that the analysis did not give a value (e.g. one added to the struct): unknown initial value
+            ad = self.facts.adts.get(v.adt) if v.variant is None else None
+            if ad and ad.get("variants"):
+                for fd in ad["variants"][0]["fields"]:
+                    if fd["name"] == p:
+                        at = {"adt": "core::option::Option"} if fd["ty"].startswith("core::option::Option<") else None
+                        v.fields[p] = Sym("self.%s" % p, fd["ty"], attrs=at)
+                        return v.fields[p]
             return Top("no field %s in %r" % (p, v))
         if isinstance(v, Seq) and isinstance(p, int):
             if v.elems is not None and 0 <= p < len(v.elems):
@@ -367,6 +375,9 @@ class Interp:
             return st.symfields[k]
         if isinstance(v, Top):
             return Top(v.why)
+        if isinstance(v, (Ptr, Seq, StrV)) and p in ("0", "pointer"):
+            # the internals of an owning pointer (Box -> Unique -> NonNull -> pointer) modelled by what it points to
+            return v
         return Top("project %s of %r" % (p, v))
 
     def seq_elem(self, st, seq, i):
